@@ -74,6 +74,66 @@ def _judge_model(model, how):
         out = l.kernel.constraint(l.kernel).numpy() if l.kernel.constraint is not None else K
         c04.judge(ctx, "repotests/PWLCalibration.trained-state+constraint", cfg, K, out, None)
         ctx.end(True, core.digest([cfg, core.arr_digest(K)]), sample=True)
+      elif prop == "C02" and isinstance(l, lattice_layer.Lattice):
+        from tflv.oracles import lattice as ol
+        import tensorflow as tf
+        K = l.kernel.numpy()
+        sizes, units = list(l.lattice_sizes), int(K.shape[1])
+        rng = np.random.RandomState(int(core.arr_digest(K), 16) % (2**31))
+        hi = np.array(sizes, dtype=np.float64) - 1
+        span = 1.0 if l.clip_inputs else 0.0
+        x = rng.uniform(-span, hi + span, size=(12, units, len(sizes))).astype(np.float32)
+        x[0] = np.round(np.clip(x[0], 0, hi))
+        y = np.asarray(l(tf.constant(x if units > 1 else x[:, 0, :]))).reshape(12, units)
+        f = ol.hypercube if l.interpolation == "hypercube" else ol.simplex
+        ref = np.stack([f(K[:, u:u + 1].astype(np.float64), sizes, x[:, u, :].astype(np.float64), l.clip_inputs)[:, 0] for u in range(units)], axis=1)
+        tol = core.REL_TOL * core.scale_of(K) * max(1.0, np.sqrt(K.shape[0]) / 8.0)
+        ctx.begin({"kind": "repotests", "layer": l.name, "sizes": sizes, "w": K.tolist(), "x": x.tolist(), "how": how})
+        e = float(np.abs(y - ref).max())
+        ctx.check("repotests/Lattice.trained-kernel/oracle-equal", e <= tol, "trained Lattice (%s) differs from the interpolation oracle by %.3g (tol %.3g)" % (l.interpolation, e, tol), ratio=e / tol)
+        ctx.end(True, core.digest([sizes, core.arr_digest(K, x)]), sample=False)
+      elif prop == "C05" and isinstance(l, pwl_calibration_layer.PWLCalibration) and l.input_keypoints_type == "fixed" and not l.impute_missing:
+        import tensorflow as tf
+        K = l.kernel.numpy().astype(np.float64)
+        kp = np.asarray(l.input_keypoints, dtype=np.float32).astype(np.float64)
+        outs = np.cumsum(K, axis=0)
+        if l.is_cyclic:
+          outs = np.concatenate([outs, outs[:1]], axis=0)
+        rng = np.random.RandomState(int(core.arr_digest(K), 16) % (2**31))
+        x = rng.uniform(kp[0] - 1, kp[-1] + 1, size=(10, 1)).astype(np.float32)
+        x[0, 0], x[1, 0] = kp[0], kp[-1]
+        y = l(tf.constant(x))
+        if isinstance(y, list):
+          y = tf.concat(y, axis=1)
+        y = np.asarray(y).astype(np.float64)
+        delta = 4 * core.F32_EPS * max(abs(kp[0]), abs(kp[-1]))
+        ctx.begin({"kind": "repotests", "layer": l.name, "kp": kp.tolist(), "w": K.tolist(), "how": how})
+        for u in range(K.shape[1]):
+          ref = np.interp(x[:, 0].astype(np.float64), kp, outs[:, u])
+          tol = core.REL_TOL * core.scale_of(outs) + float(np.sum(np.abs(np.diff(outs[:, u])) * np.minimum(1.0, delta / np.diff(kp))))
+          e = float(np.abs(y[:, u] - ref).max())
+          ctx.check("repotests/PWLCalibration.trained-kernel/oracle-equal", e <= tol, "trained PWLCalibration differs from np.interp by %.3g (tol %.3g)" % (e, tol), ratio=e / tol)
+        ctx.end(True, core.digest([kp.tolist(), core.arr_digest(K)]), sample=False)
+      elif prop == "C07" and type(l).__name__ == "KroneckerFactoredLattice":
+        import itertools
+        import tensorflow as tf
+        from tensorflow_lattice.python import utils as _u
+        L, units = int(l.lattice_sizes), int(l.units)
+        dims = int(l.kernel.shape[2]) // units
+        if dims <= 4:
+          g = np.linspace(0, L - 1, 2 * (L - 1) + 1) if dims < 4 else np.linspace(0, L - 1, L)
+          pts = np.array(list(itertools.product(g, repeat=dims)), dtype=np.float32)
+          X = pts if units == 1 else np.repeat(pts[:, None, :], units, axis=1)
+          Y = np.asarray(l(tf.constant(X))).astype(np.float64).reshape([len(g)] * dims + [units])
+          tol = core.REL_TOL * core.scale_of(Y)
+          mono = _u.canonicalize_monotonicities(l.monotonicities, allow_decreasing=False) or []
+          ctx.begin({"kind": "repotests", "layer": l.name, "L": L, "dims": dims, "how": how})
+          worst = max([float((-np.diff(Y, axis=d)).max()) for d, m in enumerate(mono) if m] + [0.0])
+          ctx.check("repotests/KFL.trained-state/monotone-on-grid", worst <= tol, "trained KFL decreases by %.3g along an increasing input" % worst, ratio=worst / tol)
+          if l.output_min is not None or l.output_max is not None:
+            v = max((l.output_min - Y.min()) if l.output_min is not None else -1e9, (Y.max() - l.output_max) if l.output_max is not None else -1e9)
+            ctx.check("repotests/KFL.trained-state/bounded-on-grid", v <= tol, "trained KFL leaves its bounds by %.3g" % v)
+          ctx.end(True, core.digest([L, dims, core.arr_digest(l.kernel.numpy(), l.scale.numpy())]), sample=False)
       elif prop == "C06" and isinstance(l, (linear_layer.Linear, categorical_calibration_layer.CategoricalCalibration)):
         K = l.kernel.numpy().astype(np.float64)
         ctx.begin({"kind": "repotests", "layer": l.name, "w": K.tolist(), "how": how})
